@@ -118,6 +118,16 @@ EXPORT errno_t _wcsicmp_s_chk(const wchar_t *restrict dest, rsize_t dmax,
         }
     }
 
+    /* wcsfc_s reads its source up to the terminator: an operand without
+       one inside its bound must not be handed to it (it would not fit
+       the scratch string either) */
+    if (unlikely(_wcsnlen_s_chk(dest, dmax, destbos) >= dmax ||
+                 _wcsnlen_s_chk(src, smax, srcbos) >= smax)) {
+        invoke_safe_str_constraint_handler("wcsicmp_s: dest/src unterminated",
+                                           (void *)dest, ESNOSPC);
+        return RCNEGATE(ESNOSPC);
+    }
+
     d1 = (wchar_t *)malloc(2 * destsz);
     rc = wcsfc_s(d1, dmax * 2, (wchar_t * restrict) dest, &l1);
     if (rc != EOK) {
